@@ -122,6 +122,8 @@ func runC01(p *Program, r *Result) {
 	// ---- R01.4
 	r.Rule("R01.4", "a stanza of another type can only produce the incorrect-identity sentinel", 4)
 	checkTypeGate(p, r)
+	r.Rule("R01.16", "an identity or recipient leaves what it is handed untouched: Unwrap does not write into the stanza list (or the stanzas) it is offered, Wrap not into the file key; Decrypt offers one list to every identity in turn (= R20.8)", 8)
+	checkArgsUntouched(p, r)
 	r.Rule("R01.15", "an SSH stanza addressed to another key of the same type is passed over, whatever its size: no fatal error that depends on the identity stands in front of the tag comparison (= R04.3)", 2)
 	for _, nu := range nativeUnwraps {
 		if nu.keyOp == "" {
@@ -603,4 +605,41 @@ func checkHeaderStanzas(p *Program, r *Result, enc *ssa.Function) {
 		pos = r.pos(in[0].Store)
 	}
 	r.Check(ok, enc.String(), "store:Recipients", pos, "hdr.Recipients = append(hdr.Recipients, stanzas[j]) for all j, for all recipients", detail)
+}
+
+// checkArgsUntouched (R01.16 = R20.8): the Unwrap/Wrap/WrapWithLabels methods of the module (and
+// what they call: the effect summary is transitive) do not write memory reachable from their
+// arguments. Decrypt hands the same stanza slice to each identity in turn and Encrypt the same
+// file key to each recipient, and callers may share them between goroutines.
+func checkArgsUntouched(p *Program, r *Result) {
+	n := 0
+	for _, fn := range p.Funcs {
+		if fn.Signature.Recv() == nil || fn.Pkg == nil || fn.Parent() != nil {
+			continue
+		}
+		switch fn.Name() {
+		case "Unwrap", "Wrap", "WrapWithLabels":
+		default:
+			continue
+		}
+		pk := fn.Pkg.Pkg.Path()
+		if pk != pkgAge && pk != pkgSSH && pk != pkgPlugin && pk != pkgCmdAge {
+			continue
+		}
+		if fn.Signature.Params().Len() != 1 {
+			continue
+		}
+		pt := fn.Signature.Params().At(0).Type().String()
+		if pt != "[]*filippo.io/age.Stanza" && pt != "[]byte" {
+			continue
+		}
+		n++
+		r.Saw(fn.String())
+		e := p.EffectsOf(fn)
+		written := e != nil && e.WritesParam[1]
+		r.Check(!written, fn.String(), "args-untouched", "", "nothing reachable from the argument is written", "the method (or something it calls) writes into memory reachable from its argument ("+pt+"): the caller offers the same list to the next identity / the same file key to the next recipient, which then sees the altered content — a listed recipient's stanza can be gone by the time its identity is consulted")
+	}
+	if n == 0 {
+		r.Unk(pkgAge, "args-untouched", "", "no Unwrap/Wrap method found")
+	}
 }
